@@ -542,3 +542,24 @@ func (p *pkg) emitRestGen() string {
 	rest.signed = false
 	return b.String()
 }
+
+// ---------- Gen/RestData.v: PSIData.toData through the control-flow translator of demuxgen.go ----------
+
+const restDataHeader = `(* Generated from the CURRENT source of /repo/data_psi.go by go/gen (restgen.go, with the statement translator of
+   demuxgen.go) on every run. Do not edit.
+   PSIData.toData in the outcome monad of Gen/DemuxGen.v: Done v, or Panicked where the Go code would dereference nil
+   (a section that has syntax data but no header). W is the world (nothing here reads or changes it).
+   Proofs/RestGenData.v proves psi_to_data of Model/Psi.v equal to it. *)
+From Coq Require Import ZArith List Bool String.
+Require Import Base.Iter Gen.Consts Gen.Types Gen.Preds Gen.DemuxGen.
+Import ListNotations.
+Open Scope Z_scope.
+
+`
+
+func (p *pkg) emitRestData() string {
+	var b strings.Builder
+	b.WriteString(restDataHeader)
+	p.emitGSections(&b, []gsection{{name: "ToData", entries: []string{"PSIData.toData"}}})
+	return b.String()
+}
